@@ -62,6 +62,10 @@ func initCatalog() {
 		{Name: "userVarOctets", ElementId: 8, DataType: entities.OctetArray, EnterpriseId: userEnterprise, Len: 65535},
 		{Name: "userBool", ElementId: 9, DataType: entities.Boolean, EnterpriseId: userEnterprise, Len: 1},
 		{Name: "userU64", ElementId: 32767, DataType: entities.Unsigned64, EnterpriseId: userEnterprise, Len: 8},
+		// fixed-length arrays around the length at which variable-length values switch to the long prefix
+		{Name: "userFixedOctets254", ElementId: 10, DataType: entities.OctetArray, EnterpriseId: userEnterprise, Len: 254},
+		{Name: "userFixedOctets255", ElementId: 11, DataType: entities.OctetArray, EnterpriseId: userEnterprise, Len: 255},
+		{Name: "userFixedOctets300", ElementId: 12, DataType: entities.OctetArray, EnterpriseId: userEnterprise, Len: 300},
 	}
 	for _, ie := range user {
 		if err := registry.PutInfoElement(ie, userEnterprise); err != nil {
